@@ -14,7 +14,7 @@ nsf_tables.py by `harness/ptv/props/C07.py`.
 
 Part 1: theorems for **every** table (any rows, any number type).  Part 2: kernel-checked
 facts about the embedded tables (`Generated.NsfTables`, regenerated on every run).  Part 3: part 1
-on the embedded tables.  Part 4: the recorded finding D19 (Pu, Cm).
+on the embedded tables.  Part 4: the recorded finding D21 (Pu, Cm).
 
 Not covered: floating-point rounding; numpy's `interp` is modelled by `PtLoad.interp`; the
 string-level parse = generated rows is checked by the compiled driver.
@@ -493,7 +493,7 @@ theorem generated_load (env : NsfEnv α) (hs : env.symOf = symOf) (hz : env.zOf 
 
 end
 
-/-! ## Part 4 — finding D19: an element with several isotope rows and no row of its own
+/-! ## Part 4 — finding D21: an element with several isotope rows and no row of its own
 
 The property says atoms not in the table report that no SLD is available.  The elements Pu and
 Cm have no row, but three isotope rows each; `nsf.init` gives them the record of the first one
